@@ -301,6 +301,17 @@ def _worker_init():
         resource.setrlimit(resource.RLIMIT_AS, (MEM_LIMIT, MEM_LIMIT))
     except (ValueError, OSError):
         pass
+    if os.environ.get("VERIF_ANCHORS", "1") != "0":
+        from mc import anchors
+        anchors.start(REPO)
+
+
+def _anchor_hits():
+    try:
+        from mc import anchors
+        return anchors.hits()
+    except Exception:
+        return set()
 
 
 def _run_one(arg):
@@ -315,6 +326,7 @@ def _run_one(arg):
         res = res.result()
     res["idx"] = idx
     res["wall"] = time.time() - t0
+    res["lines"] = _anchor_hits()
     return res
 
 
@@ -329,6 +341,7 @@ def _expand_one(arg):
     res = acc.result()
     res["idx"] = idx
     res["succ"] = succ
+    res["lines"] = _anchor_hits()
     return res
 
 
@@ -380,6 +393,14 @@ class _Pool:
 
     def imap(self, fn, args, chunksize=1):
         return self.ex.map(fn, args, chunksize=chunksize)
+
+
+def _anchor_report(pid, line_hits):
+    try:
+        from mc import anchors
+        return anchors.report(pid, REPO, line_hits)
+    except Exception as e:  # evidence nicety only
+        return [{"error": repr(e)}]
 
 
 def load_known():
@@ -494,6 +515,7 @@ def run_check(pid, tier, seed, workers=None):
     outcomes = set()
     keycount = collections.Counter()
     state_union = set()
+    line_hits = set()
     viol, samples, caps = [], [], []
     for r in results:
         for k in ("evals", "states", "trans", "nontriv", "nviol"):
@@ -501,6 +523,7 @@ def run_check(pid, tier, seed, workers=None):
         counters.update(r["counters"])
         keycount.update(r.get("keycount", {}))
         state_union |= r.get("state_set", set())
+        line_hits |= r.get("lines", set())
         outcomes |= r["outcomes"]
         for v in r["viol"]:
             v["shard"] = r["idx"]
@@ -569,6 +592,7 @@ def run_check(pid, tier, seed, workers=None):
         "workers": workers,
         "bounds": mod.bounds(tier, seed) if hasattr(mod, "bounds") else {},
         "known_findings_hit": sorted(known_hit),
+        "anchor_lines": _anchor_report(pid, line_hits),
         "explanation": "every trace is an execution of the implementation itself; there is no separate model",
     }
     ev = {
